@@ -168,6 +168,7 @@ type absState struct {
 	Cfgc     map[string]int    `json:"cfgc"`
 	Prof     int               `json:"prof"`
 	Par      map[string]string `json:"par"`
+	Present  []string          `json:"present"` // the entities that have a configuration file
 	CfgNewer map[string]bool   `json:"cfgNewer"`
 	Mt       []string          `json:"mt"` // the entities that have an artifact file, oldest file first
 	Art      map[string]absArt `json:"art"`
@@ -203,6 +204,7 @@ type repoWorld struct {
 	fs   *simfs.FS
 	cfgc map[string]int
 	par  map[string]string
+	gone map[string]bool // entities whose configuration file the user deleted
 	prof int
 }
 
@@ -268,13 +270,16 @@ func dnContent(raw []byte) (int, bool) {
 }
 
 func (w *repoWorld) project(ht *hashTable) (*absState, map[string]*artFacts) {
-	s := &absState{Prof: w.prof, Cfgc: map[string]int{}, Par: map[string]string{}, CfgNewer: map[string]bool{}, Mt: []string{}, Art: map[string]absArt{}, Flags: []string{}}
+	s := &absState{Prof: w.prof, Cfgc: map[string]int{}, Par: map[string]string{}, CfgNewer: map[string]bool{}, Mt: []string{}, Present: []string{}, Art: map[string]absArt{}, Flags: []string{}}
 	facts := map[string]*artFacts{}
 	certs := map[string]*project.Cert{}
 	pems := map[string]project.PemFile{}
 	for _, e := range w.l.Ents {
 		s.Cfgc[e] = w.cfgc[e]
 		s.Par[e] = w.par[e]
+		if !w.gone[e] {
+			s.Present = append(s.Present, e)
+		}
 		f, ok := w.fs.Files[w.l.artPath(e)]
 		a := absArt{Hash: noHash, Key: "none"}
 		fa := &artFacts{}
@@ -335,7 +340,10 @@ func (w *repoWorld) project(ht *hashTable) (*absState, map[string]*artFacts) {
 				}
 			}
 			fa.HasRequest = p.Csr != nil
-			s.CfgNewer[e] = w.fs.Files[w.l.Path[e]].MTick > f.MTick
+			s.CfgNewer[e] = false
+			if cf, has := w.fs.Files[w.l.Path[e]]; has {
+				s.CfgNewer[e] = cf.MTick > f.MTick
+			}
 		} else {
 			s.CfgNewer[e] = false
 		}
@@ -664,7 +672,10 @@ func profOf(w *repoWorld, e string) int {
 
 // perform one action on a copy of the world; returns the resulting world and the logged line
 func (x *repoExec) perform(w *repoWorld, pre *absState, preFacts map[string]*artFacts, a repoAct, depth int) (*repoWorld, *repoLine) {
-	nw := &repoWorld{l: w.l, fs: w.fs.Clone(), cfgc: map[string]int{}, par: map[string]string{}, prof: w.prof}
+	nw := &repoWorld{l: w.l, fs: w.fs.Clone(), cfgc: map[string]int{}, par: map[string]string{}, gone: map[string]bool{}, prof: w.prof}
+	for k, v := range w.gone {
+		nw.gone[k] = v
+	}
 	for k, v := range w.cfgc {
 		nw.cfgc[k] = v
 	}
@@ -686,6 +697,12 @@ func (x *repoExec) perform(w *repoWorld, pre *absState, preFacts map[string]*art
 	case "SetIssuer":
 		nw.par[a.E] = a.P
 		nw.fs.Put(x.l.Path[a.E], x.l.configText(a.E, nw.cfgc[a.E], a.P))
+	case "RemoveConfig":
+		nw.gone[a.E] = true
+		nw.fs.Remove(x.l.Path[a.E])
+	case "AddConfig":
+		delete(nw.gone, a.E)
+		nw.fs.Put(x.l.Path[a.E], x.l.configText(a.E, nw.cfgc[a.E], nw.par[a.E]))
 	case "Touch":
 		nw.fs.Put(x.l.Path[a.E], x.l.configText(a.E, nw.cfgc[a.E], nw.par[a.E]))
 	case "DeleteArt":
@@ -859,8 +876,21 @@ func foreignCsr(cn string) []byte {
 // the action alphabet at a node (arguments only; runs get their plan from the real code)
 func (x *repoExec) envActions(s *absState, enabled map[string]bool, contents int) []repoAct {
 	var out []repoAct
+	present := map[string]bool{}
+	for _, e := range s.Present {
+		present[e] = true
+	}
 	for _, e := range x.l.Ents {
 		a := s.Art[e]
+		if !present[e] {
+			if enabled["AddConfig"] {
+				out = append(out, repoAct{Name: "AddConfig", E: e})
+			}
+			continue
+		}
+		if enabled["RemoveConfig"] {
+			out = append(out, repoAct{Name: "RemoveConfig", E: e})
+		}
 		if enabled["Edit"] {
 			for c := 0; c < contents; c++ {
 				if c != s.Cfgc[e] {
@@ -888,7 +918,7 @@ func (x *repoExec) envActions(s *absState, enabled map[string]bool, contents int
 			out = append(out, repoAct{Name: "Replace", E: e})
 		}
 		isLeaf := true
-		for _, y := range x.l.Ents {
+		for _, y := range s.Present {
 			isLeaf = isLeaf && s.Par[y] != e
 		}
 		if enabled["MakeCsr"] && isLeaf && s.Par[e] != "" {
